@@ -110,7 +110,7 @@ class Program(object):
         # type: (str, Sequence[str], str) -> Program
         """ Creates a program from MPilot source code """
 
-        def resolve_list(name, expression_node):
+        def resolve_list(name, expression_node, lineno=None):
             """ Recursively resolves parsed list expressions into ListArgument values. """
 
             return ListArgument(
@@ -119,7 +119,7 @@ class Program(object):
                     resolve_list(name, n) if isinstance(n.value, list) else n.value
                     for n in expression_node.value
                 ],
-                lineno=expression_node.lineno,
+                lineno=expression_node.lineno if lineno is None else lineno,
                 list_linenos=[n.lineno for n in expression_node.value],
             )
 
@@ -140,7 +140,7 @@ class Program(object):
             for argument_node in node.arguments:
                 if isinstance(argument_node.value.value, list):
                     arguments[argument_node.name] = resolve_list(
-                        argument_node.name, argument_node.value
+                        argument_node.name, argument_node.value, argument_node.lineno
                     )
                 elif isinstance(argument_node.value.value, dict):
                     arguments[argument_node.name] = Argument(
